@@ -2,6 +2,17 @@
 HOOK_COMMITS = []
 NOT_APPLICABLE = {}
 LEVELS = {
+    "C17": {
+        "text": "Proof: C17_match_total and C17_alloc_bounded (for every valid definition and EVERY log — any topics, data, offset and length "
+                "words up to 2^256-1 — matching returns yes/no, no slice access leaves its bounds, buffers are bounded by the log size), "
+                "C17_match_spec_static/topic/dynamic (documented semantics on well-formed data), C17_filter_exists and C17_filter_sound "
+                "(a matching log always passes the derived filter), C17_decode_valid. Partial: encode/decode round-trip is established "
+                "by byte-for-byte differential comparison of the model's RLP codec with go-ethereum's through MarshalBytes/UnmarshalBytes "
+                "on generated and mutated encodings, not by a theorem.",
+        "design_ref": "DESIGN.md §4 C17",
+        "note": "Trusted: Lean kernel; correspondence harness; my model of go-ethereum rlp canonical rules and of eth_getLogs matching; Go slice/big.Int semantics.",
+        "technique": "Lean 4 theorems (totality, bounds, filter soundness) over a model with explicit partial accesses + differential correspondence incl. byte-level RLP",
+    },
     "C14": {
         "text": "Proof: C14_roundtrip — decode(encode(e)) = e for every well-formed event of all eight types (all uint64 including 0 and "
                 "2^64-1, empty and repeated address lists, empty byte strings, zero big integers), built from machine-checked round-trips "
